@@ -53,9 +53,23 @@ def _ends_in_jump(stmts) -> bool:
     return bool(stmts) and isinstance(stmts[-1], (ast.Return, ast.Raise, ast.Continue, ast.Break))
 
 
+def _free_negation(e) -> bool:
+    """The negation of e can be written without a new `not`."""
+    if isinstance(e, ast.UnaryOp) and isinstance(e.op, ast.Not):
+        return True
+    if isinstance(e, ast.Compare) and len(e.ops) == 1 and type(e.ops[0]) in _NEGATE:
+        return True
+    if isinstance(e, ast.BoolOp):
+        return all(_free_negation(v) for v in e.values)
+    return False
+
+
 def negate(test: ast.expr) -> ast.expr:
     if isinstance(test, ast.UnaryOp) and isinstance(test.op, ast.Not):
         return test.operand
+    if isinstance(test, ast.BoolOp) and _free_negation(test):
+        # De Morgan (short-circuit order and truth value are preserved; operands here are tests, used for their truth)
+        return ast.copy_location(ast.BoolOp(op=ast.Or() if isinstance(test.op, ast.And) else ast.And(), values=[negate(v) for v in test.values]), test)
     if isinstance(test, ast.Compare) and len(test.ops) == 1 and type(test.ops[0]) in _NEGATE:
         return ast.copy_location(ast.Compare(left=test.left, ops=[_NEGATE[type(test.ops[0])]()], comparators=test.comparators), test)
     return ast.copy_location(ast.UnaryOp(op=ast.Not(), operand=test), test)
@@ -74,7 +88,65 @@ def ifexp(test, a, b):
     """`a if test else b` with the positive spelling of the test (the two spellings are the same expression)."""
     if _negative(test):
         test, a, b = negate(test), b, a
+    if isinstance(a, ast.Tuple) and isinstance(b, ast.Tuple) and len(a.elts) == len(b.elts) and a.elts and _pure(test) and all(_pure(x) for x in a.elts + b.elts):
+        # (a1, k) if c else (a2, k)  ->  (a1 if c else a2, k)
+        if sum(1 for x, y in zip(a.elts, b.elts) if _dump(x) != _dump(y)) == 1:
+            return ast.Tuple(elts=[x if _dump(x) == _dump(y) else ifexp(copy.deepcopy(test), x, y) for x, y in zip(a.elts, b.elts)], ctx=ast.Load())
     return ast.IfExp(test=test, body=a, orelse=b)
+
+
+def _in_test_position(node) -> bool:
+    return getattr(node, "_asv_test", False)
+
+
+def _mark_tests(tree) -> None:
+    """Mark expressions that are used for their truth only (tests of if / while / conditional expressions / assert /
+    comprehension conditions, and operands of `not` / and / or inside those): De Morgan may be applied there."""
+    def mark(e):
+        e._asv_test = True
+        if isinstance(e, ast.UnaryOp) and isinstance(e.op, ast.Not):
+            mark(e.operand)
+        elif isinstance(e, ast.BoolOp):
+            for v in e.values:
+                mark(v)
+
+    for n in ast.walk(tree):
+        if isinstance(n, (ast.If, ast.While, ast.IfExp, ast.Assert)):
+            mark(n.test)
+        elif isinstance(n, ast.comprehension):
+            for c in n.ifs:
+                mark(c)
+
+
+def _concat_leaves(e, out) -> bool:
+    if isinstance(e, ast.BinOp) and isinstance(e.op, ast.Add):
+        return _concat_leaves(e.left, out) and _concat_leaves(e.right, out)
+    if isinstance(e, ast.Constant) and isinstance(e.value, str):
+        out.append(e)
+        return True
+    if isinstance(e, ast.JoinedStr):
+        out.extend(e.values)
+        return True
+    if isinstance(e, ast.Call) and isinstance(e.func, ast.Name) and e.func.id == "str" and len(e.args) == 1 and not e.keywords:
+        out.append(ast.FormattedValue(value=e.args[0], conversion=-1, format_spec=None))
+        return True
+    return False
+
+
+def _concat_to_fstring(node):
+    """'{' + str(n) + '}'  ->  f'{{{n}}}'   (a + chain of str constants, f-strings and str(x) calls is that f-string)."""
+    if not (isinstance(node, ast.BinOp) and isinstance(node.op, ast.Add)):
+        return node
+    leaves: list = []
+    if not _concat_leaves(node, leaves) or not any(isinstance(x, ast.FormattedValue) for x in leaves):
+        return node
+    vals: list = []
+    for x in leaves:
+        if isinstance(x, ast.Constant) and vals and isinstance(vals[-1], ast.Constant):
+            vals[-1] = ast.Constant(value=vals[-1].value + x.value)
+        else:
+            vals.append(x)
+    return ast.copy_location(ast.JoinedStr(values=vals), node)
 
 
 class _Expr(ast.NodeTransformer):
@@ -84,12 +156,24 @@ class _Expr(ast.NodeTransformer):
 
     def visit_Compare(self, node):
         self.generic_visit(node)
+        if len(node.ops) == 2 and all(type(o) in _MIRROR for o in node.ops) and isinstance(node.comparators[0], (ast.Name, ast.Constant)):
+            # a <= n <= b  ->  a <= n and n <= b   (the middle operand is a plain name: evaluating it twice is unobservable)
+            mid = node.comparators[0]
+            c1 = self.visit_Compare(ast.copy_location(ast.Compare(left=node.left, ops=[node.ops[0]], comparators=[mid]), node))
+            c2 = self.visit_Compare(ast.copy_location(ast.Compare(left=copy.deepcopy(mid), ops=[node.ops[1]], comparators=[node.comparators[1]]), node))
+            return ast.copy_location(ast.BoolOp(op=ast.And(), values=[c1, c2]), node)
         if len(node.ops) == 1 and type(node.ops[0]) in _MIRROR and _constant_like(node.left) and not _constant_like(node.comparators[0]):
             return ast.copy_location(ast.Compare(left=node.comparators[0], ops=[_MIRROR[type(node.ops[0])]()], comparators=[node.left]), node)
         return node
 
+    def visit_BinOp(self, node):
+        self.generic_visit(node)
+        return _concat_to_fstring(node)
+
     def visit_UnaryOp(self, node):
         self.generic_visit(node)
+        if isinstance(node.op, ast.Not) and isinstance(node.operand, ast.BoolOp) and _free_negation(node.operand) and _in_test_position(node):
+            return negate(node.operand)
         if isinstance(node.op, ast.Not) and isinstance(node.operand, ast.Compare) and len(node.operand.ops) == 1 and type(node.operand.ops[0]) in _NEGATE:
             c = node.operand
             return ast.copy_location(ast.Compare(left=c.left, ops=[_NEGATE[type(c.ops[0])]()], comparators=c.comparators), node)
@@ -103,8 +187,10 @@ def _boolish(e) -> bool:
 
 
 def _single_assign(stmts):
-    if len(stmts) == 1 and isinstance(stmts[0], ast.Assign) and len(stmts[0].targets) == 1 and isinstance(stmts[0].targets[0], (ast.Name, ast.Attribute)):
-        return stmts[0]
+    if len(stmts) == 1 and isinstance(stmts[0], ast.Assign) and len(stmts[0].targets) == 1:
+        t = stmts[0].targets[0]
+        if isinstance(t, (ast.Name, ast.Attribute)) or (isinstance(t, ast.Subscript) and isinstance(t.slice, (ast.Name, ast.Constant)) and isinstance(t.value, (ast.Name, ast.Attribute))):
+            return stmts[0]
     return None
 
 
@@ -132,7 +218,15 @@ class _Stmts:
             if isinstance(lst, list) and lst and isinstance(lst[0], ast.stmt):
                 for s in lst:
                     self.run(s)
-                setattr(node, fld, self.block(lst, in_loop=isinstance(node, (ast.For, ast.AsyncFor, ast.While)) and fld == "body", owner=node))
+                in_loop = isinstance(node, (ast.For, ast.AsyncFor, ast.While)) and fld == "body"
+                for _ in range(4):
+                    before = [_dump(s) for s in lst]
+                    lst = self.block1(lst, in_loop, node)
+                    setattr(node, fld, lst)
+                    if [_dump(s) for s in lst] == before:
+                        break
+                    if getattr(self, "_fn", None) is not None:
+                        self._counts = _name_counts(self._fn)
         for h in getattr(node, "handlers", []) or []:
             self.run(h)
         for c in getattr(node, "cases", []) or []:
@@ -141,7 +235,21 @@ class _Stmts:
 
     # ------------------------------------------------------------------
     def block(self, stmts, in_loop, owner):
+        for _ in range(3):
+            before = [_dump(s) for s in stmts]
+            stmts = self.block1(stmts, in_loop, owner)
+            if [_dump(s) for s in stmts] == before:
+                break
+        return stmts
+
+    def block1(self, stmts, in_loop, owner):
         stmts = [self.stmt(s) for s in stmts]
+        stmts = self.enumerate_start(stmts)
+        stmts = self.single_exit(stmts)
+        stmts = self.flatten_else(stmts)
+        stmts = self.init_overwrite(stmts)
+        stmts = self.guard_orientation(stmts)
+        stmts = self.or_split(stmts)
         stmts = self.return_bool(stmts)
         if self.temp_inlining:
             for _ in range(4):
@@ -150,11 +258,34 @@ class _Stmts:
                 if len(stmts) == n0:
                     break
         stmts = self.comprehensions(stmts)
+        if self.temp_inlining:
+            stmts = self.copy_propagation(stmts)
         if in_loop:
             stmts = self.loop_tail(stmts)
         return stmts
 
+    def _never_read(self, name: str) -> bool:
+        """A local that is only ever stored to (the `_` of `_, x = f()`, whatever it is called)."""
+        fn = getattr(self, "_fn", None)
+        if fn is None:
+            return name == "_"
+        cache = getattr(self, "_loads", None)
+        if cache is None:
+            cache = self._loads = set()
+            for x in ast.walk(fn):
+                if isinstance(x, ast.Name) and not isinstance(x.ctx, ast.Store):
+                    cache.add(x.id)
+                elif isinstance(x, (ast.Global, ast.Nonlocal)):
+                    cache.update(x.names)
+        return name not in cache
+
     def stmt(self, s):
+        # _, x = e   ->   x = e[1]
+        if isinstance(s, ast.Assign) and len(s.targets) == 1 and isinstance(s.targets[0], ast.Tuple) and len(s.targets[0].elts) >= 2 and all(isinstance(e, ast.Name) for e in s.targets[0].elts):
+            kept = [(i, e) for i, e in enumerate(s.targets[0].elts) if not self._never_read(e.id)]
+            if len(kept) == 1 and not isinstance(s.value, ast.Tuple):
+                i, e = kept[0]
+                return ast.copy_location(ast.Assign(targets=[e], value=ast.Subscript(value=s.value, slice=ast.Constant(value=i), ctx=ast.Load()), type_comment=None), s)
         # x = x op e
         if isinstance(s, ast.Assign) and len(s.targets) == 1 and isinstance(s.targets[0], (ast.Name, ast.Attribute)) and isinstance(s.value, ast.BinOp):
             t, v = s.targets[0], s.value
@@ -178,6 +309,123 @@ class _Stmts:
                 call = ast.Call(func=ca.func, args=[ifexp(s.test, ca.args[0], cb.args[0])], keywords=[])
                 return ast.copy_location(ast.Expr(value=call), s)
         return s
+
+    # ------------------------------------------------------------------
+    def enumerate_start(self, stmts):
+        """for n, x in enumerate(xs, start=K)  ->  for n__i, x in enumerate(xs): n = n__i + K ; ..."""
+        for s in stmts:
+            if isinstance(s, (ast.For, ast.AsyncFor)) and isinstance(s.iter, ast.Call) and isinstance(s.iter.func, ast.Name) and s.iter.func.id == "enumerate" and isinstance(s.target, ast.Tuple) and len(s.target.elts) == 2 and isinstance(s.target.elts[0], ast.Name):
+                c = s.iter
+                k = None
+                if len(c.args) == 2 and not c.keywords:
+                    k = c.args[1]
+                elif len(c.args) == 1 and len(c.keywords) == 1 and c.keywords[0].arg == "start":
+                    k = c.keywords[0].value
+                if k is None or not isinstance(k, ast.Constant) or not isinstance(k.value, int) or k.value == 0:
+                    continue
+                n = s.target.elts[0].id
+                idx = n + "__i"
+                s.iter = ast.copy_location(ast.Call(func=c.func, args=[c.args[0]], keywords=[]), c)
+                s.target.elts[0] = ast.copy_location(ast.Name(id=idx, ctx=ast.Store()), s.target.elts[0])
+                first = ast.Assign(targets=[ast.Name(id=n, ctx=ast.Store())], value=ast.BinOp(left=ast.Name(id=idx, ctx=ast.Load()), op=ast.Add(), right=k), type_comment=None)
+                s.body.insert(0, ast.fix_missing_locations(ast.copy_location(first, s)))
+        return stmts
+
+    def single_exit(self, stmts):
+        """if c: ...; v = A  elif d: ...; v = B  else: ...; v = C ; return v   ->   the same arms ending in `return A` ..."""
+        if len(stmts) < 2 or not isinstance(stmts[-1], ast.Return) or not isinstance(stmts[-1].value, ast.Name) or not isinstance(stmts[-2], ast.If):
+            return stmts
+        v = stmts[-1].value.id
+        arms = []
+
+        def collect(node) -> bool:
+            arms.append(node.body)
+            if len(node.orelse) == 1 and isinstance(node.orelse[0], ast.If):
+                return collect(node.orelse[0])
+            if not node.orelse:
+                return False
+            arms.append(node.orelse)
+            return True
+
+        if not collect(stmts[-2]):
+            return stmts
+        for a in arms:
+            last = a[-1]
+            if not (isinstance(last, ast.Assign) and len(last.targets) == 1 and isinstance(last.targets[0], ast.Name) and last.targets[0].id == v):
+                return stmts
+            if any(_uses(x, v) for x in a[:-1]) or _uses(last.value, v):
+                return stmts
+        for a in arms:
+            a[-1] = ast.copy_location(ast.Return(value=a[-1].value), a[-1])
+        return stmts[:-1]
+
+    def flatten_else(self, stmts):
+        """if c: A (ends in return / raise) else: B   ->   if c: A ; B"""
+        out = []
+        for s in stmts:
+            if isinstance(s, ast.If) and s.orelse and s.body and isinstance(s.body[-1], (ast.Return, ast.Raise)):
+                rest = s.orelse
+                s.orelse = []
+                out.append(s)
+                out.extend(self.flatten_else(rest))
+            else:
+                out.append(s)
+        return out
+
+    def init_overwrite(self, stmts):
+        """x = K ; if c: x = V   ->   x = V if c else K      (K constant-like, c does not read x)"""
+        out = []
+        i = 0
+        while i < len(stmts):
+            s = stmts[i]
+            nxt = stmts[i + 1] if i + 1 < len(stmts) else None
+            if (
+                isinstance(s, ast.Assign) and len(s.targets) == 1 and isinstance(s.targets[0], ast.Name) and _constant_like(s.value)
+                and isinstance(nxt, ast.If) and not nxt.orelse and _pure(nxt.test)
+            ):
+                a = _single_assign(nxt.body)
+                x = s.targets[0].id
+                if a is not None and isinstance(a.targets[0], ast.Name) and a.targets[0].id == x and not _uses(nxt.test, x) and not _uses(a.value, x):
+                    out.append(ast.copy_location(ast.Assign(targets=[s.targets[0]], value=ifexp(nxt.test, a.value, s.value)), s))
+                    i += 2
+                    continue
+            out.append(s)
+            i += 1
+        return out
+
+    def guard_orientation(self, stmts):
+        """if c: A (ends in a jump) ; R (the rest of the block, ends in return / raise)  - two spellings of one decision.
+        The guard is the arm that is a lone `raise`, or a lone `return <constant>` when the other returns something else."""
+        for i, s in enumerate(stmts):
+            if isinstance(s, ast.If) and not s.orelse and _ends_in_jump(s.body) and isinstance(s.body[-1], (ast.Return, ast.Raise)) and i + 1 < len(stmts):
+                rest = stmts[i + 1:]
+                if not isinstance(rest[-1], (ast.Return, ast.Raise)) or any(isinstance(x, ast.If) and x is not s for x in rest[:-1] if False):
+                    continue
+                a, r = s.body, rest
+
+                def rank(arm):
+                    if len(arm) == 1 and isinstance(arm[0], ast.Raise):
+                        return 0
+                    if len(arm) == 1 and isinstance(arm[0], ast.Return) and (arm[0].value is None or isinstance(arm[0].value, ast.Constant)):
+                        return 1
+                    return 2
+
+                if rank(r) < rank(a) and _free_negation_or_atom(s.test):
+                    new = ast.copy_location(ast.If(test=negate(s.test), body=list(r), orelse=[]), s)
+                    return list(stmts[:i]) + [new] + list(a)
+                return stmts
+        return stmts
+
+    def or_split(self, stmts):
+        """if a or b: J   ->   if a: J ; if b: J      (J one jump statement: the short-circuit evaluation is the same)"""
+        out = []
+        for s in stmts:
+            if isinstance(s, ast.If) and not s.orelse and len(s.body) == 1 and isinstance(s.body[0], (ast.Return, ast.Raise, ast.Continue, ast.Break)) and isinstance(s.test, ast.BoolOp) and isinstance(s.test.op, ast.Or):
+                for v in s.test.values:
+                    out.append(ast.copy_location(ast.If(test=v, body=[copy.deepcopy(s.body[0])], orelse=[]), s))
+            else:
+                out.append(s)
+        return out
 
     def return_bool(self, stmts):
         out = []
@@ -227,7 +475,8 @@ class _Stmts:
             if (
                 fn is not None and nxt is not None
                 and isinstance(s, ast.Assign) and len(s.targets) == 1 and isinstance(s.targets[0], ast.Name)
-                and not isinstance(s.value, (ast.Await, ast.Yield, ast.YieldFrom, ast.Constant, ast.ListComp, ast.List, ast.Dict, ast.Set, ast.Tuple))
+                and not isinstance(s.value, (ast.Await, ast.Yield, ast.YieldFrom, ast.Constant, ast.List, ast.Dict, ast.Set, ast.Tuple))
+                and (not isinstance(s.value, ast.ListComp) or isinstance(nxt, ast.Return))
                 and _pure(s.value)
             ):
                 t = s.targets[0].id
@@ -242,6 +491,34 @@ class _Stmts:
                         i += 1
                         continue
             out.append(s)
+            i += 1
+        return out
+
+    def copy_propagation(self, stmts):
+        """t = e ; ... t ... t ...   ->   ... e ... e ...    for a short-lived temporary t (all its uses, at most three, are in
+        the next two statements) that is assigned once in the function and whose
+        value e is a call-free expression over names / attributes that nothing in the function assigns after this point
+        (`start = self.partial[0]`, `name = f'_p_{tok}'`): reading e again gives the same value."""
+        fn = getattr(self, "_fn", None)
+        if fn is None:
+            return stmts
+        out = list(stmts)
+        i = 0
+        while i < len(out):
+            s = out[i]
+            if isinstance(s, ast.Assign) and len(s.targets) == 1 and isinstance(s.targets[0], ast.Name) and _stable_expr(s.value) and not isinstance(s.value, (ast.Constant, ast.Name)):
+                t = s.targets[0].id
+                rest = out[i + 1:]
+                uses_rest = sum(_uses(x, t) for x in rest)
+                total = self._counts.get(t, 0)
+                near = sum(_uses(x, t) for x in rest[:2])
+                if uses_rest >= 1 and near == uses_rest and uses_rest <= 3 and total == uses_rest + 1 and sum(_store_count(x, t) for x in rest) == 0 and _stable_after(fn, s, s.value) and not _used_in_nested_scope(rest, t) and _undisturbed(s.value, rest[:2]):
+                    for x in rest:
+                        for u in [y for y in ast.walk(x) if isinstance(y, ast.Name) and y.id == t]:
+                            _replace_node(x, u, s.value)
+                    self._counts[t] = 0
+                    del out[i]
+                    continue
             i += 1
         return out
 
@@ -267,9 +544,86 @@ class _Stmts:
                         out.append(ast.copy_location(ast.Assign(targets=[ast.Name(id=tgt.id, ctx=ast.Store())], value=comp), s))
                         i += 2
                         continue
+            # for v in it: [if c:] xs.append(e)   ->   xs.extend([e for v in it if c])
+            if isinstance(s, ast.For) and not s.orelse and len(s.body) == 1:
+                inner = s.body[0]
+                cond = None
+                if isinstance(inner, ast.If) and not inner.orelse and len(inner.body) == 1:
+                    cond, inner = inner.test, inner.body[0]
+                c = _single_append([inner])
+                if c is not None and c.func.attr == "append":
+                    xs = c.func.value.id
+                    if _uses(s.iter, xs) == 0 and (cond is None or (_uses(cond, xs) == 0 and _pure(cond))) and _uses(c.args[0], xs) == 0 and _pure(s.iter) and _pure(c.args[0]) and _uses(s.target, xs) == 0:
+                        comp = ast.ListComp(elt=c.args[0], generators=[ast.comprehension(target=s.target, iter=s.iter, ifs=[cond] if cond is not None else [], is_async=0)])
+                        call = ast.Call(func=ast.Attribute(value=ast.Name(id=xs, ctx=ast.Load()), attr="extend", ctx=ast.Load()), args=[comp], keywords=[])
+                        out.append(ast.fix_missing_locations(ast.copy_location(ast.Expr(value=call), s)))
+                        i += 1
+                        continue
             out.append(s)
             i += 1
         return out
+
+
+def _free_negation_or_atom(e) -> bool:
+    return True
+
+
+def _stable_expr(e) -> bool:
+    """Call-free expression over names, attributes, constant subscripts, arithmetic and f-strings."""
+    for x in ast.walk(e):
+        if not isinstance(x, (ast.Name, ast.Attribute, ast.Subscript, ast.Constant, ast.BinOp, ast.JoinedStr, ast.FormattedValue, ast.operator, ast.expr_context, ast.UnaryOp, ast.unaryop, ast.Tuple)):
+            return False
+        if isinstance(x, ast.Subscript) and not isinstance(x.slice, (ast.Constant, ast.Name)):
+            return False
+    return True
+
+
+def _stable_after(fn, stmt, e) -> bool:
+    """Nothing in the function after `stmt` (by position), nor a loop around it, stores to a name / attribute that e reads."""
+    names = {x.id for x in ast.walk(e) if isinstance(x, ast.Name)}
+    attrs = {_dump(x) for x in ast.walk(e) if isinstance(x, (ast.Attribute, ast.Subscript))}
+    line = getattr(stmt, "lineno", 0)
+    in_loop = any(isinstance(l, (ast.For, ast.AsyncFor, ast.While)) and any(y is stmt for y in ast.walk(l)) for l in ast.walk(fn))
+    for x in ast.walk(fn):
+        if x is stmt or any(y is x for y in ast.walk(stmt)):
+            continue
+        ln = getattr(x, "lineno", None)
+        if ln is None or (ln < line and not in_loop):
+            continue
+        if isinstance(x, ast.Name) and isinstance(x.ctx, (ast.Store, ast.Del)) and x.id in names:
+            return False
+        if isinstance(x, (ast.Attribute, ast.Subscript)) and isinstance(x.ctx, (ast.Store, ast.Del)):
+            d = _dump(x)
+            if any(d == a or a.startswith(d[:-1]) or d in a for a in attrs):
+                return False
+        if isinstance(x, ast.AugAssign) and isinstance(x.target, ast.Name) and x.target.id in names:
+            return False
+    return True
+
+
+def _undisturbed(value, stmts) -> bool:
+    """Re-evaluating `value` inside `stmts` gives what it gave before them: a value that reads the heap (attribute /
+    subscript) is not carried across any call or await; a value over local names only is not carried across a method call on,
+    or a store through, one of those names."""
+    heap = any(isinstance(x, (ast.Attribute, ast.Subscript)) for x in ast.walk(value))
+    names = {x.id for x in ast.walk(value) if isinstance(x, ast.Name)}
+    for s in stmts:
+        for x in ast.walk(s):
+            if heap and isinstance(x, (ast.Call, ast.Await, ast.Yield, ast.YieldFrom, ast.With, ast.AsyncWith, ast.AsyncFor)):
+                return False
+            if isinstance(x, ast.Call) and isinstance(x.func, ast.Attribute) and isinstance(x.func.value, ast.Name) and x.func.value.id in names:
+                return False
+            if isinstance(x, (ast.Attribute, ast.Subscript)) and isinstance(x.ctx, (ast.Store, ast.Del)) and isinstance(x.value, ast.Name) and x.value.id in names:
+                return False
+    return True
+
+
+def _used_in_nested_scope(stmts, t) -> bool:
+    for s in stmts:
+        for x in ast.walk(s):
+            if isinstance(x, (ast.FunctionDef, ast.AsyncFunctionDef, ast.Lambda)) and _uses(x, t):
+                return True
+    return False
 
 
 def _boolish_or_call(e) -> bool:
@@ -297,8 +651,21 @@ def _crosses_call_boundary(stmt, use, value) -> bool:
     if not any(isinstance(x, (ast.Call, ast.Subscript, ast.Attribute)) for x in ast.walk(value)):
         return False
     # calls evaluated before `use` in stmt: conservative - any call that does not contain `use` among its descendants
+    later = set()
     for x in ast.walk(stmt):
-        if isinstance(x, ast.Call) and not any(y is use for y in ast.walk(x)):
+        if isinstance(x, (ast.ListComp, ast.SetComp, ast.DictComp)) and x.generators and any(y is use for y in ast.walk(x.generators[0].iter)):
+            # everything in the comprehension but its first iterable is evaluated after that iterable
+            for part in ast.iter_child_nodes(x):
+                for y in ast.walk(part):
+                    later.add(id(y))
+            for y in ast.walk(x.generators[0].iter):
+                later.discard(id(y))
+            for g in x.generators[:1]:
+                for c in list(g.ifs) + [g.target]:
+                    for y in ast.walk(c):
+                        later.add(id(y))
+    for x in ast.walk(stmt):
+        if isinstance(x, ast.Call) and id(x) not in later and not any(y is use for y in ast.walk(x)):
             return True
     return False
 
@@ -340,6 +707,7 @@ def canon_function(fn, temp_inlining: bool = True):
 
 
 def canon_module(tree: ast.Module, temp_inlining: bool = True) -> ast.Module:
+    _mark_tests(tree)
     tree = _Expr().visit(tree)
     for n in ast.walk(tree):
         if isinstance(n, (ast.FunctionDef, ast.AsyncFunctionDef)):
